@@ -498,7 +498,9 @@ class ScriptGen:
         for _ in range(nb):
             n = self.binder_name(scope, names)
             bt = r.choice(bts)
-            s = self.msym(n, bt)
+            # every binder occurrence has its own symbol on the meaning side: the expansion of a let variable bound outside
+            # (mentioning an outer variable, or a declared symbol, of the same name and sort) is not captured by this binder
+            s = self.msym("%s!b%d" % (n, self.new_uid()), bt)
             self.global_types.setdefault(n, bt)
             names.append(n)
             vs.append(s)
@@ -713,8 +715,9 @@ class ScriptGen:
         if bound_in_body:
             for a in args:
                 try:
-                    fv = set(s.symbol_name() for s in a[1]({u: self.m.Symbol("pe!%d" % u, self.ptype(pt))
-                                                             for (u, pt) in self._all_params()}).get_free_variables())
+                    fv = set(_text_name(s.symbol_name())
+                             for s in a[1]({u: self.m.Symbol("pe!%d" % u, self.ptype(pt))
+                                            for (u, pt) in self._all_params()}).get_free_variables())
                 except Exception:
                     fv = set()
                 if fv & bound_in_body:
@@ -1524,6 +1527,33 @@ class ScriptGen:
         return self
 
 
+def _text_name(meaning_name):
+    """the spelling in the text of a symbol of the meaning side (binder occurrences are x!b<k>, alpha-renamed symbols x!<k>)"""
+    import re
+    return re.sub(r"!\d+$", "", re.sub(r"!b\d+$", "", meaning_name))
+
+
+def _crosses_same_named_binder(f):
+    """does the (intended) term hold, under a binder of a variable the text spells n with sort t, a free occurrence of ANOTHER
+    variable or symbol that the text spells n, of the same sort?  In a text that is possible only through the expansion of a
+    let variable, of a definition or of a definition parameter bound outside that binder."""
+    seen, stack = set(), [f]
+    while stack:
+        n = stack.pop()
+        if id(n) in seen:
+            continue
+        seen.add(id(n))
+        if n.is_quantifier():
+            fvs = n.arg(0).get_free_variables()
+            for v in n.quantifier_vars():
+                base, ty = _text_name(v.symbol_name()), v.symbol_type()
+                for s_ in fvs:
+                    if s_ is not v and s_.symbol_type() == ty and _text_name(s_.symbol_name()) == base:
+                        return True
+        stack.extend(n.args())
+    return False
+
+
 def _bound_names(sx):
     """names bound by quantifiers (and lets) inside an s-expression"""
     out = []
@@ -2249,6 +2279,8 @@ def check_script(ctx, g, text, ig, lines, meta, stream, std_always=False, n_inte
         sig = {"oracle": "meaning", "stream": stream, "command": what.split("#")[0]}
         if g.capture_prone:
             sig["shape"] = "define-fun-call-capture-prone"
+        elif _crosses_same_named_binder(want):
+            sig["shape"] = "expansion-under-same-named-binder"
         elif g.may_reject:
             sig["shape"] = "+".join(sorted(g.may_reject))
         if max(_tree_size(want), _tree_size(got)) > MAX_TREE:
@@ -2419,9 +2451,9 @@ def undeclared_case(rng, gen):
     return pos, render_script(r, pre + mk(ntok), fancy=False), render_script(r, pre + mk(s), fancy=False)
 
 
-def run_undeclared(ctx, n):
+def run_undeclared(ctx, n, forced=False):
     for i in range(n):
-        if ctx.time_left() < 40:
+        if not forced and ctx.time_left() < 40:
             break
         for _ in range(8):
             # (the script in front is made of forms the parser handles: the rejection is due to the undeclared name)
@@ -2440,8 +2472,11 @@ def run_undeclared(ctx, n):
         ctx.count("undeclared_" + pos.split("/")[0])
         ctx.count("undeclared_form_" + (pos.split("/")[-2] if "/" in pos else "scope"))
         if res[0] == "ok":
-            ctx.report_s({"oracle": "reject", "kind": "undeclared-symbol", "position": pos},
-                         "a script with an undeclared name (%s) is accepted" % pos, {"text": text, "kind": "undeclared-symbol"})
+            parts = pos.split("/")
+            ctx.report_s({"oracle": "reject", "kind": "undeclared-symbol", "form": parts[-2] if len(parts) > 1 else "scope-ended",
+                          "sort": parts[-1] if len(parts) > 1 else "-"},
+                         "a script with an undeclared name (position: %s) is accepted" % pos,
+                         {"text": text, "kind": "undeclared-symbol", "position": pos})
         if control is not None:
             K_TEXTS.append(("undeclared-control", control))
             resc = run_impl(control)
@@ -2579,6 +2614,25 @@ def run_f10_f17(ctx, ig, lines, meta):
     if res[0] == "ok":
         ctx.report_s({"oracle": "reject", "kind": "int-division-slash", "detail": "/"},
                      "`/` applied to Int terms accepted (read as integer division)", {"text": text})
+    # F17b: the expansion of a let variable (or of a definition) that mentions x is captured by a binder of x (same sort)
+    for text, build in (("(declare-fun x () Int)(declare-fun g () Int)(assert (let ((l (- x g))) (exists ((x Int)) (<= l x))))",
+                         lambda m, x, g, xb: m.Exists([xb], m.LE(m.Minus(x, g), xb))),
+                        ("(declare-fun x () Int)(declare-fun g () Int)(define-fun d () Int (- x g))(assert (exists ((x Int)) (<= d x)))",
+                         lambda m, x, g, xb: m.Exists([xb], m.LE(m.Minus(x, g), xb))),
+                        ("(declare-fun g () Int)(assert (forall ((x Int)) (let ((l (- x g))) (exists ((x Int)) (< l x)))))",
+                         lambda m, x, g, xb: m.ForAll([x], m.Exists([xb], m.LT(m.Minus(x, g), xb))))):
+        res = run_impl(text)
+        ctx.case("known:" + text)
+        K_TEXTS.append(("known-expansion-under-binder", text))
+        if res[0] == "ok":
+            from pysmt.typing import INT
+            m = E().formula_manager
+            want = build(m, m.Symbol("x", INT), m.Symbol("g", INT), m.Symbol("x!b1", INT))
+            got = res[1].commands[-1].args[0]
+            lines.append(semantic.chk_equiv_line(want, got, ig.sample([want, got], n=8), check_fv=False))
+            meta.append(({"oracle": "meaning", "stream": "witness", "command": "assert", "shape": "expansion-under-same-named-binder"},
+                         {"text": text, "command": "assert#%d" % (len(res[1].commands) - 1), "intended": semantic.readable(want),
+                          "returned": semantic.readable(got)}))
     # F15e: (as x Int) under a binder of x is the bound variable; the parser reads the global symbol of that name
     for text, build in (("(declare-fun x () Int)(assert (let ((x 5)) (= (as x Int) 5)))", lambda m, x: m.Equals(m.Int(5), m.Int(5))),
                         ("(declare-fun x () Int)(define-fun g ((x Int)) Bool (= (as x Int) 5))(assert (g 7))",
@@ -2629,23 +2683,28 @@ def run(ctx):
     run_f10_f17(ctx, ig, lines, meta)
     # the dedicated streams are small and run first: they are not cut when building the Lean side took most of the budget
     run_let_witnesses(ctx, ig, lines, meta)
-    for i in range(160 if quick else 1500):
+    # (when building the Lean side has used up the budget -- the sources changed -- a reduced number of cases of each dedicated
+    #  stream is still run: a few seconds in all)
+    short = ctx.time_left() < (60 if quick else 400)
+    if short:
+        ctx.count("dedicated_streams_reduced")
+    for i in range((40 if short else 160) if quick else 1500):
         # simultaneous let: swaps, rotations, later bindings mentioning earlier-rebound names
-        if ctx.time_left() < (45 if quick else 400):
+        if not short and ctx.time_left() < (45 if quick else 300):
             break
         g = gen_script(ctx.rng, "strict", "build_simlet_script")
         text = render_script(ctx.rng, [c[0] for c in g.cmds], fancy=ctx.rng.random() < 0.3)
         check_script(ctx, g, text, ig, lines, meta, "let-sim", n_interps=6)
     mark("let-sim")
-    for i in range(260 if quick else 2500):
+    for i in range((100 if short else 260) if quick else 2500):
         # n-ary forms of chainable / left-assoc / right-assoc / pairwise operators: the standard's meaning, or a rejection
-        if ctx.time_left() < (45 if quick else 400):
+        if not short and ctx.time_left() < (45 if quick else 300):
             break
         g = gen_script(ctx.rng, "strict", "build_nary_script")
         text = render_script(ctx.rng, [c[0] for c in g.cmds], fancy=ctx.rng.random() < 0.2)
         check_script(ctx, g, text, ig, lines, meta, "nary", std_always=True, n_interps=8)
     mark("nary")
-    run_undeclared(ctx, 220 if quick else 2500)
+    run_undeclared(ctx, (80 if short else 220) if quick else 2500, forced=short)
     mark("undeclared")
     n = 700 if quick else 6000
     for i in range(n):
